@@ -659,6 +659,32 @@ func execTargetConflict(c C16Case) bool {
 		}
 		seen[k] = r.Fields["target"]
 	}
+	// the same finding through two different names that are generalised to one pattern
+	// (/proc/10/ and /proc/100/, two home directories): identified by its symptom in the
+	// printed rules, one path with an exec access and two different targets (one may be none)
+	profiles, err := profilesFromLog(c.Text())
+	if err != nil {
+		return false
+	}
+	for _, p := range profiles {
+		targets := map[string]map[string]bool{}
+		for _, r := range p.Rules {
+			f, ok := r.(*aa.File)
+			if !ok || f == nil || !strings.Contains(strings.ToLower(strings.Join(f.Access, "")), "x") {
+				continue
+			}
+			k := fmt.Sprintf("%v|%v|%v|%s", f.Audit, f.AccessType, f.Owner, f.Path)
+			if targets[k] == nil {
+				targets[k] = map[string]bool{}
+			}
+			targets[k][f.Target] = true
+		}
+		for _, ts := range targets {
+			if len(ts) > 1 {
+				return true
+			}
+		}
+	}
 	return false
 }
 
@@ -943,6 +969,10 @@ func TestC16_Replay(t *testing.T) {
 	ev := NewEv(t, "C16", "replay", "replay of one saved case")
 	ev.Case("replay")
 	if _, oerr := c16Oracle(c); oerr != nil {
+		if key := c16Excluded(c); key != "" {
+			ev.KnownFinding(key, firstLine(oerr))
+			return
+		}
 		ev.Violate(json.RawMessage(rf.Case), "", "%v", oerr)
 		t.Fatalf("%v", oerr)
 	}
